@@ -13,6 +13,7 @@ fn main() {
     }
     match args[1].as_str() {
         "abs" => abs::run(&args[2..]),
+        "replay" => abs::run_replay(&args[2..]),
         x => {
             eprintln!("unknown subcommand {x}");
             std::process::exit(2);
